@@ -86,6 +86,31 @@ def drv_mw_fields(s):
     return (parts1, merged, [tup(p) for p in b2.fields[1].value])
 
 
+def drv_mw_three(s):
+    """three name fields in an order that is a rotation of the default name_fields (author, editor, translator): every
+    field keeps its own names through the four middlewares; the name under test sits in 'editor'"""
+    order = ("editor", "translator", "author")
+    mk_lib = lambda vals: Library([Entry("article", "k", [Field(k, v) for k, v in zip(order, vals)])])
+    split = lambda lib: N.SplitNameParts(True).transform(N.SeparateCoAuthors(True).transform(lib))
+    lib = split(mk_lib((s, "Tt Uu", "Aa Bb")))
+    b = lib.blocks[0]
+    if not isinstance(b, Entry):
+        return None
+    vals = [f.value for f in b.fields]
+    p1 = [tup(p) for v in vals for p in v]
+    fixed_ok = ([tup(p) for p in vals[1]] == [(["Tt"], [], ["Uu"], [])] and [tup(p) for p in vals[2]] == [(["Aa"], [], ["Bb"], [])]
+                and [f.key for f in b.fields] == list(order))
+    lib = N.MergeCoAuthors(True).transform(N.MergeNameParts("last", True).transform(lib))
+    merged = [f.value for f in lib.blocks[0].fields]
+    if not fixed_ok or merged[1:] != ["Uu, Tt", "Bb, Aa"]:
+        return (p1, merged, None)
+    lib2 = split(mk_lib(merged))
+    b2 = lib2.blocks[0]
+    if not isinstance(b2, Entry):
+        return (p1, merged, None)
+    return (p1, merged, [tup(p) for f in b2.fields for p in f.value])
+
+
 def drv_stack(doc):
     lib = bibtexparser.parse_string(doc, append_middleware=[N.SeparateCoAuthors(True), N.SplitNameParts(True)])
     if len(lib.blocks) != 1 or not isinstance(lib.blocks[0], Entry):
@@ -243,6 +268,12 @@ def task_mw_fields(L):
     return run_task(drv_mw_fields, s, eng, lambda x: x, mk_replay(drv_mw_fields, lambda x: x), False)
 
 
+def task_mw_three(L):
+    eng = Engine()
+    s = sym(eng, L, SIGMA2, "")
+    return run_task(drv_mw_three, s, eng, lambda x: x, mk_replay(drv_mw_three, lambda x: x), False)
+
+
 PRE, POST = "@a{k, author = {", "}}"
 
 
@@ -285,6 +316,9 @@ def main():
     chk.bounds["non-default name_fields"] = f"the four middlewares built with name_fields=('bookauthor',): names of length 1..4 over {SIGMA2!r} in that field, 'author' holding plain text"
     for L in (4, 3, 2, 1):
         chk.add_task(f"fields-L{L}", task_mw_fields, L=L)
+    chk.bounds["three name fields"] = f"an entry with editor (the name under test, length 1..4 over {SIGMA2!r}), translator and author in that order through the four middlewares: every field keeps its own names"
+    for L in (4, 3, 2, 1):
+        chk.add_task(f"three-L{L}", task_mw_three, L=L)
     chk.bounds["whole stack, protected line ends"] = "NAME = '{' + 1..3 characters over CR, LF, blank, 'A' + '}' (alone, and followed by ' and b A')"
     for n in (3, 2, 1):
         for tail in (False, True):
